@@ -84,78 +84,78 @@ theorem rule_pruned_loop_needs_guard_witness : Cl.isLose (Cl.runLoop (-31999) [.
 open Gen.SearchGuards in
 /-- site: late-move pruning in the current search.cpp skips a move only while `bestScore` is not a lose score
     (and `normalBound`, computed as `¬isLose α ∧ ¬isWin β`, holds) -/
-theorem site_lmp (alpha beta limit bestScore mi : Int) (h : lmpCond (normalBound alpha beta) limit bestScore mi = true) :
+theorem site_lmp (alpha beta limit bestScore mi : Int) (h : lmpCond (normalBound := normalBound (alpha := alpha) (beta := beta)) (lmpMoveCountLimit := limit) (bestScore := bestScore) (mi := mi) = true) :
     Cl.MoveEv.Guarded bestScore .lmp ∧ ¬ Cl.isLose alpha ∧ ¬ Cl.isWin beta :=
   ⟨(Bridge.SearchGuards.lmp_guard_sound_unfolded alpha beta limit bestScore mi h).1, (Bridge.SearchGuards.lmp_guard_sound_unfolded alpha beta limit bestScore mi h).2⟩
 
 open Gen.SearchGuards in
 /-- site: futility-pruned moves get a score that is not a lose score (static evaluation + margin) -/
 theorem site_futility (bestScore evalScore fs margin score : Int) (he : ¬ Cl.isLose evalScore) (hm : 0 ≤ margin) :
-    Cl.MoveEv.Guarded bestScore (.fut (futMoveScore (futScore evalScore fs margin) score)) :=
+    Cl.MoveEv.Guarded bestScore (.fut (futMoveScore (futilityScore := futScore (evalScore := evalScore) (futilityScore := fs) (margin := margin)) (score := score))) :=
   Bridge.SearchGuards.fut_event_guarded bestScore evalScore fs margin score he hm
 
 open Gen.SearchGuards in
 /-- site: moves are pruned only after a legal move was searched, so `haveLegalMoves = false` at the end of the loop
     means there is none (stalemate / mate detection) -/
 theorem site_prune_gate (haveLegalMoves : Bool) (pass : Int) (mayReduce givesCheck ppp : Bool)
-    (h : pruneGate haveLegalMoves pass mayReduce givesCheck ppp = true) : haveLegalMoves = true :=
+    (h : pruneGate (haveLegalMoves := haveLegalMoves) (pass := pass) (mayReduce := mayReduce) (givesCheck := givesCheck) (opq_passedPawnPush := ppp) = true) : haveLegalMoves = true :=
   (Bridge.SearchGuards.prune_gate_sound haveLegalMoves pass mayReduce givesCheck ppp h).1
 
 open Gen.SearchGuards in
 /-- site: the null-move cut of the current search.cpp returns a sound result whenever its entry guard held -/
 theorem site_null {P} (G : Cl.Game P) (p : P) (ply : Nat) (alpha beta depth score : Int) (inCheck allowNull singularSearch : Bool)
-    (h : nullEntryCond alpha beta depth inCheck allowNull singularSearch = true) :
-    ∃ b, Bridge.SearchGuards.boundOf (nullRet beta score).2 = some b ∧ Cl.Sound G p ply (nullRet beta score).1 b :=
+    (h : nullEntryCond (alpha := alpha) (beta := beta) (depth := depth) (inCheck := inCheck) (sti_allowNullMove := allowNull) (singularSearch := singularSearch) = true) :
+    ∃ b, Bridge.SearchGuards.boundOf (nullRet (beta := beta) (score := score)).2 = some b ∧ Cl.Sound G p ply (nullRet (beta := beta) (score := score)).1 b :=
   Bridge.SearchGuards.null_rule G p ply alpha beta depth score inCheck allowNull singularSearch h
 
 open Gen.SearchGuards in
 /-- site: the mate-distance cut returns a correct upper bound that claims nothing, and its negation claims nothing at
     the parent -/
 theorem site_mdp {P} (G : Cl.Game P) (p : P) (alpha beta : Int) (ply : Nat) (hply : ply < 1000) (hab : alpha < beta)
-    (h : mdpCut alpha (mdpBeta beta ply) = true) :
-    Cl.Sound G p ply (mdpRet alpha) .upper ∧ Cl.NoClaim (-(mdpRet alpha)) .lower :=
+    (h : mdpCut (alpha := alpha) (beta := mdpBeta (beta := beta) (ply := ply)) = true) :
+    Cl.Sound G p ply (mdpRet (alpha := alpha)) .upper ∧ Cl.NoClaim (-(mdpRet (alpha := alpha))) .lower :=
   Bridge.SearchGuards.mdp_rule G p alpha beta ply hply hab h
 
 open Gen.SearchGuards in
 /-- site: razoring returns an upper bound; sound when the quiescence score is not a lose score -/
 theorem site_razor {P} (G : Cl.Game P) (p : P) (ply : Nat) (score : Int) (hs : ¬ Cl.isLose score) :
-    ∃ b, Bridge.SearchGuards.boundOf (razorRet score).2 = some b ∧ Cl.Sound G p ply (razorRet score).1 b :=
+    ∃ b, Bridge.SearchGuards.boundOf (razorRet (score := score)).2 = some b ∧ Cl.Sound G p ply (razorRet (score := score)).1 b :=
   Bridge.SearchGuards.razor_rule G p ply score hs
 
 open Gen.SearchGuards in
 /-- site: reverse futility returns `eval − margin` as a lower bound; sound when the evaluation is not a win score -/
 theorem site_revfut {P} (G : Cl.Game P) (p : P) (ply : Nat) (evalScore margin : Int) (he : ¬ Cl.isWin evalScore) (hm : 0 ≤ margin) :
-    ∃ b, Bridge.SearchGuards.boundOf (revFutRet evalScore margin).2 = some b ∧ Cl.Sound G p ply (revFutRet evalScore margin).1 b :=
+    ∃ b, Bridge.SearchGuards.boundOf (revFutRet (evalScore := evalScore) (margin := margin)).2 = some b ∧ Cl.Sound G p ply (revFutRet (evalScore := evalScore) (margin := margin)).1 b :=
   Bridge.SearchGuards.revfut_rule G p ply evalScore margin he hm
 
 open Gen.SearchGuards in
 /-- site: mated node — the score `illegalScore` that remains when no move was legal, and the explicit return inside
     the 50-move test, are the terminal rule's score -/
 theorem site_mated {P} (G : Cl.Game P) (p : P) (ply : Nat) (b : Cl.Bound) (hm : Cl.mated G p = true) (hply : ply < 1000) :
-    Cl.Sound G p ply (illegalScore ply) b ∧ Cl.Sound G p ply (draw50MatedRet ply).1 b :=
+    Cl.Sound G p ply (illegalScore (ply := ply)) b ∧ Cl.Sound G p ply (draw50MatedRet (ply := ply)).1 b :=
   Bridge.SearchGuards.mated_rule G p ply b hm hply
 
 open Gen.SearchGuards in
 /-- site: fail high overridden by a lose score of the hash entry (entry sound for this node) -/
 theorem site_fail_high_override {P} (G : Cl.Game P) (p : P) (ply : Nat) (entScore : Int → Int) (entType score tType : Int)
     (hent : ∀ b, Bridge.SearchGuards.boundOf entType = some b → Cl.Sound G p ply (entScore ply) b) (hsc : Cl.Sound G p ply score .lower) :
-    ∃ b, Bridge.SearchGuards.boundOf (failHighOverride ply entScore entType score tType).2 = some b ∧
-         Cl.Sound G p ply (failHighOverride ply entScore entType score tType).1 b :=
+    ∃ b, Bridge.SearchGuards.boundOf (failHighOverride (ply := ply) (ent_getScore := entScore) (ent_getType := entType) (score := score) (tType := tType)).2 = some b ∧
+         Cl.Sound G p ply (failHighOverride (ply := ply) (ent_getScore := entScore) (ent_getType := entType) (score := score) (tType := tType)).1 b :=
   Bridge.SearchGuards.fail_high_override_rule G p ply entScore entType score tType hent hsc
 
 open Gen.SearchGuards in
 /-- site: fail low overridden by a win score of the hash entry -/
 theorem site_fail_low_override {P} (G : Cl.Game P) (p : P) (ply : Nat) (alpha : Int) (entScore : Int → Int) (entType bestScore tType : Int)
     (hent : ∀ b, Bridge.SearchGuards.boundOf entType = some b → Cl.Sound G p ply (entScore ply) b) (hsc : Cl.Sound G p ply bestScore .upper) :
-    ∃ b, Bridge.SearchGuards.boundOf (failLowOverride alpha ply entScore entType bestScore tType).2 = some b ∧
-         Cl.Sound G p ply (failLowOverride alpha ply entScore entType bestScore tType).1 b :=
+    ∃ b, Bridge.SearchGuards.boundOf (failLowOverride (alpha := alpha) (ply := ply) (ent_getScore := entScore) (ent_getType := entType) (bestScore := bestScore) (tType := tType)).2 = some b ∧
+         Cl.Sound G p ply (failLowOverride (alpha := alpha) (ply := ply) (ent_getScore := entScore) (ent_getType := entType) (bestScore := bestScore) (tType := tType)).1 b :=
   Bridge.SearchGuards.fail_low_override_rule G p ply alpha entScore entType bestScore tType hent hsc
 
 open Gen.SearchGuards in
 /-- site (quiesce): a node is entered with `inCheck = true` only at depths where no evasion is skipped, and starts from
     the mated score instead of a stand-pat value -/
-theorem site_quiesce_in_check (depth mi ply score : Int) (givesCheck : Bool) (h : qNextInCheck depth givesCheck = true) :
-    qSkipCond (depth - 1) mi = false ∧ qInCheckScore ply score = -(Cl.MATE0 - (ply + 1)) :=
+theorem site_quiesce_in_check (depth mi ply score : Int) (givesCheck : Bool) (h : qNextInCheck (depth := depth) (givesCheck := givesCheck) = true) :
+    qSkipCond (depth := depth - 1) (mi := mi) = false ∧ qInCheckScore (ply := ply) (score := score) = -(Cl.MATE0 - (ply + 1)) :=
   ⟨Bridge.SearchGuards.q_incheck_no_skip depth mi givesCheck h, Bridge.SearchGuards.q_incheck_score ply score⟩
 
 -- the guards are satisfiable (the site theorems are not vacuous)
